@@ -39,10 +39,18 @@ def coq_stage(pid, prop, ev, problems, tier="quick"):
         cov["coq_make_s"] = round(time.time() - t0, 1)
         if not ok:
             e = C.coq_first_error(out)
-            problems.append({"kind": "proof", "what": "Coq build of the closure of Properties/%s.v failed" % pid, "detail": e})
+            changed = C.changed_areas(misses)
+            if changed and not (changed & areas):
+                # the closure shares library files (the query writer's model and its proofs serve as "the encoder" of the
+                # round-trip theorems) with other properties; every leaf of THIS property's own areas is byte-identical to
+                # the clean tree's, where its theorems were checked: a break caused by foreign leaves says nothing about it
+                cov["foreign_break"] = ("closure not re-checked: leaf areas %s, outside this property's own areas, changed or no "
+                                        "longer translate (first error: %s)" % (sorted(changed), json.dumps(e)[:200]))
+            else:
+                problems.append({"kind": "proof", "what": "Coq build of the closure of Properties/%s.v failed" % pid, "detail": e})
     # pins: statements + Print Assumptions, compiled fresh on every run
     pin = os.path.join(C.COQ, "pins", "%s.v" % pid)
-    if thms and os.path.exists(pin) and not any(p["kind"] == "proof" for p in problems):
+    if thms and os.path.exists(pin) and not any(p["kind"] == "proof" for p in problems) and "foreign_break" not in cov:
         rc, out = C.run(["coqc", "-noglob", "-Q", "theories", "RsdnsModel", "pins/%s.v" % pid], cwd=C.COQ, timeout=600)
         for f in glob.glob(os.path.join(C.COQ, "pins", "%s.vo*" % pid)) + glob.glob(os.path.join(C.COQ, "pins", ".%s.aux" % pid)):
             try:
@@ -64,16 +72,10 @@ def coq_stage(pid, prop, ev, problems, tier="quick"):
     # areas.  If such a foreign leaf changed or stopped translating (and none of the property's own did), a failure
     # there says nothing about this property: it is noted, not reported.
     sec = prop.get("secondary")
-    if sec and not any(p["kind"] == "proof" for p in problems):
+    if sec and not any(p["kind"] == "proof" for p in problems) and "foreign_break" not in cov:
         sthms = sec["theorems"]
         obligations += len(sthms)
-        changed = set(m["area"] for m in misses)
-        try:
-            old = json.load(open(os.path.join(C.DRIVER_DIR, "gen_stamp.json")))
-            cur = C.gen_hashes()
-            changed |= set(a for a in cur if old.get(a) != cur[a])
-        except (OSError, ValueError):
-            old = None
+        changed = C.changed_areas(misses)
         foreign_only = bool(changed) and not (changed & areas)
         sprob = None
         ok, out = C.coq_make(["theories/Properties/%s.vo" % sec["file"]])
@@ -104,7 +106,7 @@ def coq_stage(pid, prop, ev, problems, tier="quick"):
     if bad:
         problems.append({"kind": "proof", "what": "forbidden construct in development", "detail": bad[:5]})
     # thorough tier: re-check the compiled closure with the independent checker and list its axioms
-    if tier == "thorough" and thms and not any(p["kind"] == "proof" for p in problems):
+    if tier == "thorough" and thms and not any(p["kind"] == "proof" for p in problems) and "foreign_break" not in cov:
         t0 = time.time()
         libs = ["RsdnsModel.Properties.%s" % pid]
         if prop.get("secondary") and str(cov.get("secondary", "")).endswith("re-checked"):
